@@ -404,11 +404,11 @@ func main() {
 			for _, hn := range hashers {
 				for _, b := range ballast {
 					cfg := hamt.Config{Kind: kind, Hasher: hamt.HasherByName(hn), Ballast: b, Active: active, Values: []int{1, 2}, Start: "builder", Persist: true}
-					r.Seq("persist/"+cfg.Name(), func(x *mc.X) { hamt.Search(x, cfg) })
+					r.Seq("persist/"+cfg.Name(), func(x *mc.X) { hamt.Search(x, cfg) }).NoShard = true
 				}
 			}
 			cfg := hamt.Config{Kind: kind, Hasher: hamt.HasherByName("identity"), Ballast: 2, Active: active, Values: []int{1, 2}, Start: "zero", Persist: true}
-			r.Seq("persist/"+cfg.Name(), func(x *mc.X) { hamt.Search(x, cfg) })
+			r.Seq("persist/"+cfg.Name(), func(x *mc.X) { hamt.Search(x, cfg) }).NoShard = true
 		}
 		for _, hn := range hashers {
 			for _, b := range []int{0, 6, 14} {
